@@ -213,6 +213,10 @@ def check(prop, tier, obligations, level="model_checking", seed=0, extra_assumpt
                     if r["status"] != "ok":
                         inconclusive.append(dict(obligation=ob["name"], cube=r["consts"], reason=r["status"] + ": " + r.get("message", "")[:300]))
                         continue
+                    if r["n_queries"] == 0 or not any(q["kind"] == "reach" and q["verdict"] == "sat" for q in (r["queries"] or [])):
+                        if not r.get("check_panics"):
+                            inconclusive.append(dict(obligation=ob["name"], cube=r["consts"], reason="harness never reaches its checks in this cube: "
+                                                     "the code under test panics or diverges on every path (panics are C01's subject)"))
                     tot["blocks"] += r["blocks"]
                     tot["edges"] += r["edges"]
                     tot["terms"] += r["terms"]
@@ -222,8 +226,9 @@ def check(prop, tier, obligations, level="model_checking", seed=0, extra_assumpt
                     tot["encode_secs"] += r["encode_secs"]
                     ob_rec["queries"] += r["n_queries"]
                     ob_rec["encode_secs"] += r["encode_secs"]
-                    ob_rec["unsat"] += r["n_queries"] - len(r["queries"] or [])
-                    tot["unsat"] += r["n_queries"] - len(r["queries"] or [])
+                    hidden = r["n_queries"] - len(r["queries"] or [])  # trivially-unsat queries are not listed by the engine
+                    ob_rec["unsat"] += hidden
+                    tot["unsat"] += hidden
                     for k, v in (r.get("inexact") or {}).items():
                         inexact[k] = inexact.get(k, 0) + v
                     if ob_rec["example_cube"] is None:
